@@ -69,7 +69,7 @@ func families(run *vk.Run) []*family {
 		}
 		return f
 	}
-	core, abs, req := fedlab.SCore(), fedlab.SAbs(), fedlab.SReq()
+	core, abs, req, shapes := fedlab.SCore(), fedlab.SAbs(), fedlab.SReq(), fedlab.SShapes()
 	return []*family{
 		mk("S-core", core, fedlab.SCoreUniverse(core), func(t, f string) [][]fedlab.ArgUse {
 			switch t + "." + f {
@@ -125,7 +125,44 @@ func families(run *vk.Run) []*family {
 			}
 			return 0
 		}),
+		// entities below lists of lists and non-null list wrappers: faults of the
+		// fetches that collect their items from / merge into nested lists
+		mk("S-shapes", shapes, fedlab.SShapesUniverse(shapes), nil, func(r fedlab.FieldRef) int {
+			if r.Type == "Owner" || r.Field == "secret" || r.Field == "tags" {
+				return 1
+			}
+			return 0
+		}),
+		// two-jump key routes: sg0 -sku-> sg1 -upc-> sg2 (a failed first jump must
+		// take the second one with it)
+		keysChain(run),
 	}
+}
+
+// keysChain: S-keys with a chain of keys over three subgraphs.
+func keysChain(run *vk.Run) *family {
+	s := fedlab.SKeys()
+	f := &family{name: "S-keys", s: s, u: fedlab.SKeysUniverse(s), schema: mustSchema(s.SDL())}
+	l := fedlab.ByType(s, 3, func(r fedlab.FieldRef) int {
+		switch r.String() {
+		case "Query.newest", "Product.price":
+			return 1
+		case "Product.stock":
+			return 2
+		}
+		return 0
+	}, "chain3")
+	l.SetKeyUse("Product", 0, &fedlab.KeyUse{Keys: []string{"sku"}})
+	l.SetKeyUse("Product", 1, &fedlab.KeyUse{Keys: []string{"sku", "upc"}})
+	l.SetKeyUse("Product", 2, &fedlab.KeyUse{Keys: []string{"upc"}})
+	f.layouts = []*fedlab.Layout{l}
+	f.ops = fedlab.GenOps(fedlab.GenConfig{Schema: f.schema, Widths: []int{1, 2}, ArgMenu: func(t, fn string) [][]fedlab.ArgUse {
+		if t+"."+fn == "Query.product" {
+			return [][]fedlab.ArgUse{{{Name: "sku", Value: `"s2"`}}}
+		}
+		return nil
+	}}, "query")
+	return f
 }
 
 // pos is one response position of the fault-free response with its provenance.
@@ -385,6 +422,7 @@ func judgeFault(f *family, lab *fedlab.Lab, q string, b *baseline, F []string, k
 		}
 	}
 	applicable := false
+	notOnlyBatches := false
 	lab.Sim.Intercept = func(r *fedlab.Request) (*http.Response, error, bool) {
 		if !inF[r.Key()] {
 			return nil, nil, false
@@ -432,6 +470,9 @@ func judgeFault(f *family, lab *fedlab.Lab, q string, b *baseline, F []string, k
 			// a BATCH answered with no entity at all (for one representation this
 			// is entities-one-short)
 			if len(ents) < 2 {
+				// the same request text is also sent for a single representation: the
+				// fault set (identified by request text) is then not a set of batches
+				notOnlyBatches = true
 				return 200, body
 			}
 			applicable = true
@@ -454,7 +495,7 @@ func judgeFault(f *family, lab *fedlab.Lab, q string, b *baseline, F []string, k
 		return "wedged", []fail{{"the gateway still returns promptly one well-formed response", "execution wedged with no request in flight", "the engine call never returned although every subgraph request had been answered"}}
 	}
 	out, reqs, err := o.out, o.reqs, o.err
-	if !applicable {
+	if !applicable || notOnlyBatches {
 		return "n/a", nil
 	}
 	var fails []fail
@@ -601,9 +642,11 @@ func faultClass(b *baseline, F []string, kind string) string {
 			if r.Key() != k || r.Reps == nil {
 				continue
 			}
+			// one request text can be sent for one representation AND for a batch in
+			// the same execution: the single-representation behaviour dominates
 			if len(r.Reps) == 1 {
 				sh = "single-representation entity request"
-			} else {
+			} else if sh != "single-representation entity request" {
 				sh = "batch entity request"
 			}
 		}
